@@ -1167,7 +1167,7 @@ func wlLong(r *core.Rand, n int, fork bool) *gw {
 		prev = tip
 		tip = g.add(tip, 0, 2)
 		g.deliver(tip)
-		if r.Chance(1, 12) {
+		if r.Chance(1, 5) {
 			g.ops = append(g.ops, "f")
 		}
 	}
@@ -1180,12 +1180,43 @@ func wlLong(r *core.Rand, n int, fork bool) *gw {
 	return g
 }
 
+// pruning with a reorganisation whose attach blocks are older than the newest
+// main-chain blocks: main chain to a, side chain of s blocks from depth d
+// below the tip, main chain grows by m more, then the side chain overtakes.
+func wlPruneReorg(r *core.Rand, a, d, s, m int) *gw {
+	g := newGW(r)
+	tip := 0
+	var main []int
+	for i := 0; i < a; i++ {
+		tip = g.add(tip, 0, 1)
+		main = append(main, tip)
+		g.deliver(tip)
+	}
+	side := main[a-1-d]
+	for i := 0; i < s; i++ {
+		side = g.add(side, 0, 1)
+		g.deliver(side)
+	}
+	for i := 0; i < m; i++ {
+		tip = g.add(tip, 0, 1)
+		g.deliver(tip)
+	}
+	for g.height(side) <= g.height(tip) {
+		side = g.add(side, 0, 1)
+		g.deliver(side)
+	}
+	return g
+}
+
 func (P) Generate(g *core.Gen) {
 	// emit one workload: first-level images with the given stride, a few torn
 	// variants, and second-level images (crash, reopen, re-feed, crash again;
 	// the first commits of a second life are the recovery's own) for nk
 	// first-level crash points.
 	emit := func(class string, cache int, prune string, w *gw, stride int, nk int, nj int) {
+		if only := os.Getenv("VERIF_C04_ONLY"); only != "" && only != class {
+			return // debugging aid: one class only
+		}
 		key := fmt.Sprintf("%d %s %s %s", cache, prune, w.blocksStr(), w.opsStr())
 		r, _, _, ok := getRun(strings.Fields("C04 img " + key + " 1"))
 		if !ok || r.l1.bad != "" {
@@ -1231,6 +1262,7 @@ func (P) Generate(g *core.Gen) {
 		emit("tree", r.Intn(2), "0", wlTree(r, 7), 2, 1, 2)
 		emit("prune", 1, "2000:1000", wlLong(r, 14+r.Intn(3), false), 6, 2, 3)
 		emit("prune", 0, "2000:1000", wlLong(r, 11, true), 9, 1, 2)
+		emit("prune-reorg", r.Intn(2), "2000:1000", wlPruneReorg(r, 8+r.Intn(3), 1+r.Intn(2), 1, 1+r.Intn(2)), 4, 0, 0)
 	} else {
 		for i := 0; i < 8; i++ {
 			emit("linear", i%2, "0", wlLinear(r, 2+r.Intn(5)), 1, 1, 3)
@@ -1256,6 +1288,11 @@ func (P) Generate(g *core.Gen) {
 			prune := []string{"2000:1000", "3000:1000", "1600:800", "2400:1200"}[r.Intn(4)]
 			emit("prune", i%2, prune, wlLong(r, 14+r.Intn(12), i%3 == 0), 3, 4, 6)
 		}
+		for i := 0; i < 10; i++ {
+			prune := []string{"2000:1000", "3000:1000", "1600:800"}[r.Intn(3)]
+			d := 1 + r.Intn(3)
+			emit("prune-reorg", i%2, prune, wlPruneReorg(r, 8+r.Intn(6), d, 1+r.Intn(d), 1+r.Intn(3)), 1, 1, 3)
+		}
 	}
 	// malformed / boundary lines
 	for _, l := range []string{
@@ -1270,6 +1307,41 @@ func (P) Generate(g *core.Gen) {
 
 // ---------------------------------------------------------------------------
 // Known finding F-C04-a.
+
+// classifyPrunedTip recognises F-C04-c: pruning is on, the image's persisted
+// best block is not among the stored blocks (the connect commit that made it
+// the tip deleted the block file that holds it), every persisted observation
+// agrees with the model, the real node cannot be reopened and the model says
+// the same (answered with the Spec's demand "must-reopen").
+func classifyPrunedTip(line string, gf, lf map[string]string) string {
+	t := strings.Fields(line)
+	if len(t) < 7 || t[3] == "0" {
+		return ""
+	}
+	if lf["r"] != "must-reopen" || !strings.HasPrefix(gf["r"], "err") {
+		return ""
+	}
+	for k, v := range gf {
+		if k != "r" && lf[k] != v {
+			return ""
+		}
+	}
+	for k := range lf {
+		if _, ok := gf[k]; !ok {
+			return ""
+		}
+	}
+	best := gf["best"]
+	if best == "" || gf["stored"] == "" {
+		return ""
+	}
+	for _, id := range strings.Split(gf["stored"], ".") {
+		if id == best {
+			return ""
+		}
+	}
+	return "F-C04-c"
+}
 
 func fields(s string) map[string]string {
 	m := map[string]string{}
@@ -1290,6 +1362,9 @@ func fields(s string) map[string]string {
 // final state of the uninterrupted run (first component).
 func (P) ClassifyMismatch(line, goOut, leanOut string) string {
 	gf, lf := fields(goOut), fields(leanOut)
+	if id := classifyPrunedTip(line, gf, lf); id != "" {
+		return id
+	}
 	if len(gf) != len(lf) || gf["w"] == "" || (gf["w"] == "-" && (gf["w1"] == "" || gf["w1"] == "-")) {
 		return ""
 	}
@@ -1323,7 +1398,10 @@ func (P) ClassifyMismatch(line, goOut, leanOut string) string {
 	}
 	spec, _ := strconv.Atoi(l[0])
 	got, _ := strconv.Atoi(g[0])
-	if h[got] > h[spec] {
+	// without pruning the lost activation can only leave the node on a chain with
+	// no more work; with pruning the uninterrupted run itself may lose the
+	// ability to reorganise (side-chain blocks pruned), so no such bound holds.
+	if t[3] == "0" && h[got] > h[spec] {
 		return ""
 	}
 	return "F-C04-a"
